@@ -37,6 +37,8 @@ STAGES = {
             ('dialandsend-2x1-b1-cancel-mid-data', 'Session', cfg(OP='"DialAndSend"', MAXR='1', BUDGET='1', CAPSETS='{{}}', CLASSES='{"p5"}', VARIANTS='{"ctxcancelmid"}')),
             # every positive reply of the server - the acknowledgement of the end of data too - is a multi-line reply
             ('send-2x1-b1-multiline-ok', 'Session', cfg(MAXR='1', BUDGET='1', CAPSETS='{{}}', CLASSES='{"p5", "t4"}', VARIANTS='{"multiok"}')),
+            # a server that offers PIPELINING: no message may be committed that is not one of the batch, whatever the client makes of the offer
+            ('send-2x2-b1-pipelining-offered', 'Session', cfg(BUDGET='1', CAPSETS='{{"PIPELINING", "8BITMIME"}}', CLASSES='{"p5", "t4"}')),
             ('send-2x1-b2-transport', 'Session', cfg(MAXR='1', BUDGET='2', CAPSETS='{{}}', CLASSES='{"wfail", "cwfail", "p5"}')),
             ('send-2x1-b1-allrender', 'Session', cfg(MAXR='1', BUDGET='1', CAPSETS='{{}}',
                                                       RENDERKINDS='{"fail0", "failMid", "failEOF", "failAtt", "failAttEOF", "failSign", "failEmptyErr", "failShortErr", "failMidSigned"}')),
